@@ -174,7 +174,12 @@ impl<T: Copy> ReadStream<T> {
 
     #[must_use]
     pub fn wait_for_read(&self, need: usize) -> bool {
-        self.circ.wait_for_read(need) < need && Arc::strong_count(&self.circ) == 1
+        // Check for the writer being gone *before* looking at how much data
+        // there is. The other way around, the writer can commit its last data
+        // and go away between the two checks, and we'd report "never" with
+        // enough data sitting in the stream.
+        let closed = Arc::strong_count(&self.circ) == 1;
+        self.circ.wait_for_read(need) < need && closed
     }
 
     /// Return true if there is nothing more ever to read from the stream.
